@@ -335,7 +335,7 @@ func (inAny) Resolve(obj interface{}, f *ggql.Field, _ map[string]interface{}) (
 	}
 	return nil, nil
 }
-func (inAny) Len(list interface{}) int                      { return 0 }
+func (inAny) Len(list interface{}) int                         { return 0 }
 func (inAny) Nth(list interface{}, i int) (interface{}, error) { return nil, nil }
 
 // input: (intro (strategy n) (incl b) (lookups name...) (docs ...))
@@ -400,6 +400,9 @@ func inExec(input sx.S) sx.S {
 	lookups := []sx.S{"lookups"}
 	for _, n := range sx.List(l[3])[1:] {
 		name := scTypeName(sx.Int(n))
+		if id := sx.Int(n); id >= 5000 { // the name of a directive: not a type
+			name = scDirName(id - 5000)
+		}
 		r2, pan := run(`{__type(name:"` + name + `")` + inTypeSel(incl) + `}`)
 		if pan != "" {
 			lookups = append(lookups, sx.L("panic", sx.Hex(pan)))
@@ -461,6 +464,39 @@ func c17Gen(r *rand.Rand, tier string) []Case {
 			i--
 			continue
 		}
+		// enum values carrying @deprecated followed by a user directive
+		var evDirs []scItem
+		for _, it := range w {
+			if it.K == kDirective {
+				ok := false
+				for _, l := range it.Locs {
+					if l == 15 {
+						ok = true
+					}
+				}
+				for _, a := range it.Inputs {
+					if a.T.K == 2 && a.Def == nil {
+						ok = false
+					}
+				}
+				if ok {
+					evDirs = append(evDirs, it)
+				}
+			}
+		}
+		for j := range w {
+			if w[j].K != kEnum {
+				continue
+			}
+			for k := range w[j].Vals {
+				if len(w[j].Vals[k].Dirs) == 0 && r.Intn(2) == 0 {
+					w[j].Vals[k].Dirs = []scDU{{N: 2}}
+					if len(evDirs) > 0 {
+						w[j].Vals[k].Dirs = append(w[j].Vals[k].Dirs, scDU{N: evDirs[r.Intn(len(evDirs))].N})
+					}
+				}
+			}
+		}
 		var docs [][]scItem
 		tags := []string{"nontrivial"}
 		switch r.Intn(4) {
@@ -499,6 +535,12 @@ func c17Gen(r *rand.Rand, tier string) []Case {
 			}
 		}
 		names = append(names, sx.A(950+r.Intn(20))) // an unknown name
+		names = append(names, sx.A(5000+r.Intn(3)))   // skip / include / deprecated: directives, not types
+		for _, it := range w {
+			if it.K == kDirective && r.Intn(2) == 0 {
+				names = append(names, sx.A(5000+it.N))
+			}
+		}
 		for strategy := 0; strategy < 3; strategy++ {
 			for incl := 0; incl < 2; incl++ {
 				if tier != "thorough" && r.Intn(2) == 0 {
@@ -507,7 +549,7 @@ func c17Gen(r *rand.Rand, tier string) []Case {
 				input := sx.L("intro", sx.L("strategy", sx.A(strategy)), sx.L("incl", sx.A(incl)),
 					append([]sx.S{"lookups"}, names...), append([]sx.S{"docs"}, ds...))
 				out = append(out, Case{ID: fmt.Sprintf("i%d-s%d-d%d", i, strategy, incl), Input: input,
-					Tags: append(append([]string{}, tags...), fmt.Sprintf("strategy-%d", strategy), fmt.Sprintf("includeDeprecated-%d", incl)),
+					Tags:  append(append([]string{}, tags...), fmt.Sprintf("strategy-%d", strategy), fmt.Sprintf("includeDeprecated-%d", incl)),
 					Human: scHuman(docs)})
 			}
 		}
